@@ -400,6 +400,204 @@ def exp_template_text(case):
     return m["s"] + (m.get("p") or "")
 
 
+# ------------------------------------------------------------------ built-in validators under the shipped locales
+
+PLACES = ["state-dict", "state-obj", "element", "root", "builtins"]
+
+
+def _builtin_objects(case):
+    """(element, validator, state, the two translator callables or None)"""
+    from harness.props import c15
+    from flatland.schema.base import Slot
+    el = c15.build(case["c15"])
+    v = c15.mk_validator(case["c15"]["v"])
+    lang = case.get("lang")
+    g = translation(lang).gettext if lang else None
+    n = translation(lang).ngettext if (lang and case.get("with_n", True)) else None
+    place = case["place"]
+    state = None
+    if place == "state-dict":
+        state = {}
+        if g:
+            state["ugettext"] = g
+        if n:
+            state["ungettext"] = n
+    elif place == "state-obj":
+        state = _Obj()
+        if g:
+            state.ugettext = g
+        if n:
+            state.ungettext = n
+    elif place in ("element", "root"):
+        tgt = el
+        if place == "root":
+            tgt = el.root
+        if g:
+            tgt.ugettext = g
+        if n:
+            tgt.ungettext = n
+    return el, v, state, g, n
+
+
+def _root_is_other(case):
+    """does the element have a parent (so that `root` differs from `element`)?"""
+    return "index" in case["c15"]["build"]
+
+
+def run_builtin(case):
+    from harness.props import c15
+    el, v, state, g, n = _builtin_objects(case)
+    view = c15.view_of(case["c15"], el)
+    assert view == case["c15"]["view"], "harness: element view differs from the case"
+    el.errors[:] = list(case["c15"].get("pre_errors", []))
+    b = {}
+    if case["place"] == "builtins":
+        lang = case.get("lang")
+        if lang:
+            b["u"] = {"v": {"locale": lang}}
+            if case.get("with_n", True):
+                b["n"] = {"v": {"locale": lang}}
+    out = {"raise": None, "verdict": None}
+    with _Builtins(b):
+        try:
+            ret = v(el, state)
+            out["verdict"] = ret if isinstance(ret, bool) else "<%s>" % type(ret).__name__
+        except Exception as e:
+            out["raise"] = type(e).__name__
+    out["errors"] = list(el.errors)
+    return out, el, v, g, n
+
+
+def oracle_builtin(case):
+    """the message a failing built-in validator must record under the locale: the catalogue's translation of
+    the documented form (real gettext on the shipped .mo), every value passed through gettext, fully expanded"""
+    from harness.props import c15
+    obs, el, v, g, n = run_builtin(case)
+    fails = []
+    want, msg = c15.documented(case["c15"], el)
+    if want is None or want == "no-raise":
+        return fails
+    if obs["raise"] is not None:
+        base = dict(case)
+        base["lang"] = None
+        if run_builtin(base)[0]["raise"] is not None:
+            return fails  # the validator raises without any translator: C15's business
+        fails.append({"clause": "expands-without-error", "expected": want, "observed": obs["raise"]})
+        return fails
+    if obs["verdict"] is not want:
+        return fails  # C15's business
+    pre = list(case["c15"].get("pre_errors", []))
+    if want is True or msg is None:
+        return fails
+    key, extra = msg
+    tmpl = getattr(v, key)
+    tr = g if g else (lambda x: x)
+
+    def val(k):
+        if k in extra:
+            return extra[k]
+        if hasattr(v, k):
+            return getattr(v, k)
+        return getattr(el, k)
+    if isinstance(tmpl, tuple):
+        single, plural, nkey = tmpl
+        cnt = tr(val(nkey))
+        try:
+            cnt = int(cnt)
+        except (TypeError, ValueError):
+            pass
+        if n:
+            tmpl = n(single, plural, cnt)
+        else:
+            tmpl = tr(single) if cnt == 1 else tr(plural)
+    else:
+        tmpl = tr(tmpl)
+
+    class M(dict):
+        def __missing__(self, k):
+            return tr(val(k))
+    text = tmpl % M()
+    exp = pre if text in pre else pre + [text]
+    if obs["errors"] != exp:
+        fails.append({"clause": "translated-expansion", "expected": exp, "observed": obs["errors"]})
+    for m in obs["errors"][len(pre):]:
+        if "%(" in m and "%(" not in "".join(str(val(k)) for k in placeholders(tmpl)):
+            fails.append({"clause": "no-leftover-placeholder", "expected": "no %( left", "observed": m})
+    return fails
+
+
+def builtin_scenarios():
+    """one failing scenario per built-in message attribute (singular and plural counts where it is a triple):
+    (label, unfinished C15 case)"""
+    S, I, B = "String", "Integer", "Boolean"
+    sc = lambda kind, val, name="fld": {"kind": kind, "name": name, "set": val}
+    lst = lambda n, kind="List": {"kind": kind, "name": "wishes", "member": S, "member_name": "wish", "values": ["w"] * n}
+    dct = lambda raw: {"kind": "Dict", "name": "frm", "fields": ["a", "b"], "raw": raw}
+    two = lambda a, b: {"kind": "fields", "name": "frm", "fields": [{"name": "x", "type": S, "set": a}, {"name": "y", "type": S, "set": b}]}
+    out = [
+        ("Converted.incorrect", {"cls": "Converted"}, sc(I, "abc")),
+        ("Present.missing", {"cls": "Present"}, sc(S, "")),
+        ("IsTrue.false", {"cls": "IsTrue"}, sc(B, False)),
+        ("IsFalse.true", {"cls": "IsFalse"}, sc(B, True)),
+        ("ValueIn.fail", {"cls": "ValueIn", "valid_options": ["a", "b"]}, sc(S, "z")),
+        ("ValueIn.fail/empty-value", {"cls": "ValueIn", "valid_options": ["a"]}, sc(S, "")),
+        ("ValueIn.fail/None", {"cls": "ValueIn", "valid_options": [1]}, sc(I, "q")),
+        ("ShorterThan.exceeded", {"cls": "ShorterThan", "maxlength": 2}, sc(S, "abc")),
+        ("LongerThan.short", {"cls": "LongerThan", "minlength": 5}, sc(S, "abc")),
+        ("LengthBetween.breached", {"cls": "LengthBetween", "minlength": 4, "maxlength": 8}, sc(S, "abc")),
+        ("ValueLessThan.failure", {"cls": "ValueLessThan", "boundary": 4}, sc(I, 4)),
+        ("ValueAtMost.failure", {"cls": "ValueAtMost", "maximum": 3}, sc(I, 4)),
+        ("ValueGreaterThan.failure", {"cls": "ValueGreaterThan", "boundary": 4}, sc(I, 4)),
+        ("ValueAtLeast.failure", {"cls": "ValueAtLeast", "minimum": 5}, sc(I, None)),
+        ("ValueBetween.failure_inclusive", {"cls": "ValueBetween", "minimum": 1, "maximum": 3, "inclusive": True}, sc(I, 9)),
+        ("ValueBetween.failure_exclusive", {"cls": "ValueBetween", "minimum": 1, "maximum": 3, "inclusive": False}, sc(I, 3)),
+        ("ValuesEqual.unequal", {"cls": "ValuesEqual", "field_paths": ["x", "y"]}, two("p", "q")),
+        ("UnisEqual.unequal", {"cls": "UnisEqual", "field_paths": ["x", "y"]}, two("p", "q")),
+        ("NotDuplicated.failure", {"cls": "NotDuplicated"}, dict(lst(3), index=2)),
+        ("HasAtLeast.failure/singular", {"cls": "HasAtLeast", "minimum": 1}, lst(0)),
+        ("HasAtLeast.failure/plural", {"cls": "HasAtLeast", "minimum": 3}, lst(1)),
+        ("HasAtMost.failure/singular", {"cls": "HasAtMost", "maximum": 1}, lst(2)),
+        ("HasAtMost.failure/plural", {"cls": "HasAtMost", "maximum": 2}, lst(3)),
+        ("HasAtMost.failure/zero", {"cls": "HasAtMost", "maximum": 0}, lst(1)),
+        ("HasBetween.exact/singular", {"cls": "HasBetween", "minimum": 1, "maximum": 1}, lst(2)),
+        ("HasBetween.exact/plural", {"cls": "HasBetween", "minimum": 2, "maximum": 2}, lst(0)),
+        ("HasBetween.range/singular", {"cls": "HasBetween", "minimum": 0, "maximum": 1}, lst(3)),
+        ("HasBetween.range/plural", {"cls": "HasBetween", "minimum": 1, "maximum": 3}, lst(5, "Array")),
+        ("SetWithKnownFields.unexpected", {"cls": "SetWithKnownFields"}, dct({"t": "dict", "pairs": [["a", "1"], ["z", "2"], ["q", "3"]]})),
+        ("SetWithAllFields.unexpected", {"cls": "SetWithAllFields"}, dct({"t": "dict", "pairs": [["a", "1"], ["b", "2"], ["z", "3"]]})),
+        ("SetWithAllFields.missing", {"cls": "SetWithAllFields"}, dct({"t": "dict", "pairs": [["a", "1"]]})),
+        ("SetWithAllFields.both", {"cls": "SetWithAllFields"}, dct({"t": "pairs", "pairs": [["z", "1"]]})),
+        ("Luhn10.invalid", {"cls": "Luhn10"}, sc(I, 4111111111111112)),
+        ("IsEmail.invalid", {"cls": "IsEmail"}, sc(S, "not-an-address")),
+        ("URLValidator.bad_format", {"cls": "URLValidator"}, sc(S, None)),
+        ("URLValidator.blocked_scheme", {"cls": "URLValidator", "allowed_schemes": ["https"]}, sc(S, "http://a.example/")),
+        ("URLValidator.blocked_part", {"cls": "URLValidator", "allowed_parts": ["scheme", "netloc"]}, sc(S, "http://a.example/p")),
+        ("HTTPURLValidator.bad_format", {"cls": "HTTPURLValidator"}, sc(S, "http://[::1")),
+        ("HTTPURLValidator.required_part", {"cls": "HTTPURLValidator"}, sc(S, "ftp://a.example/")),
+        ("HTTPURLValidator.forbidden_part", {"cls": "HTTPURLValidator"}, sc(S, "http://u:p@a.example/")),
+        ("URLCanonicalizer.bad_format", {"cls": "URLCanonicalizer"}, sc(S, "http://[::1")),
+    ]
+    return [(label, {"v": v, "build": b}) for label, v, b in out]
+
+
+def rand_builtin(rng, c15case=None):
+    from harness.props import c15
+    if c15case is None:
+        for _ in range(6):
+            c = c15.PROP_GEN(rng)
+            try:
+                el = c15.build(c)
+                want, msg = c15.documented(c, el)
+            except Exception:
+                continue
+            if want is False:
+                break
+        c15case = c
+    place = rng.choice(PLACES)
+    lang = rng.choice(LANGS + LANGS + [None])
+    return {"k": "builtin", "c15": c15case, "lang": lang, "place": place, "with_n": rng.random() < 0.7}
+
+
 # ------------------------------------------------------------------ known-finding class predicates
 
 
@@ -704,7 +902,9 @@ class C16(Property):
             "Mapping element with children named like keys, non-numeric counts, unsupported conversions.  Exhaustive: all 2^5 definedness "
             "patterns x {fresh key, label} x {no translator, builtins translator}.  Built-in stream: every failing built-in validator scenario x "
             "{source,de,es,fr} x translator placement.  non-trivial = an expansion was produced and the message uses at least one key")
-    exhaustive_note = "all 2^5 patterns of which documented source defines the key, for a fresh key and for `label`, with and without a builtins translator"
+    exhaustive_note = ("all 2^5 patterns of which documented source defines the key, for a fresh key and for `label`, with and without a builtins "
+                       "translator; one failing scenario per built-in message attribute (singular and plural counts for the triples) x "
+                       "{source,de,es,fr} x translator placement {state item, root element} (thorough: all five placements) x with/without ungettext")
 
     def corpus(self):
         out = []
@@ -739,24 +939,39 @@ class C16(Property):
                     c2 = copy.deepcopy(c)
                     c2["builtins"] = {"u": _slot({"tag": "B", "tbl": []})}
                     yield c2
+        yield from self._builtin_exhaustive(tier)
+
+    def _builtin_exhaustive(self, tier):
+        from harness.props import c15
+        places = PLACES if tier == "thorough" else ["state-dict", "root"]
+        for label, c in builtin_scenarios():
+            fin = c15.finish(copy.deepcopy(c))
+            for lang in [None] + LANGS:
+                for place in places:
+                    for with_n in ((True, False) if lang else (True,)):
+                        yield {"k": "builtin", "c15": fin, "lang": lang, "place": place, "with_n": with_n, "label": label}
 
     def generate(self, rng, n, tier):
         for i in range(n):
-            if rng.random() < 0.15:
+            r = rng.random()
+            if r < 0.12:
                 yield hostile_syn(rng)
-            else:
+            elif r < 0.65:
                 yield rand_syn(rng)
+            else:
+                yield rand_builtin(rng)
 
     def has_model(self, case):
-        if case["k"] == "syn":
-            m = case["msg"]
-            # `%` conversions outside %(key)s / %% are a modelling boundary
-            return True
+        if case["k"] == "builtin":
+            from harness.props import c15
+            return c15.PROP.has_model(case["c15"])
         return True
 
     def run_impl(self, case):
         if case["k"] == "syn":
             return run_syn(case)
+        if case["k"] == "builtin":
+            return run_builtin(case)[0]
         raise ValueError(case["k"])
 
     def compare(self, impl_obs, model_obs):
@@ -767,6 +982,8 @@ class C16(Property):
     def oracle(self, case):
         if case["k"] == "syn":
             return oracle_syn(case)
+        if case["k"] == "builtin":
+            return oracle_builtin(case)
         return []
 
     def classify(self, case, failure):
@@ -782,7 +999,7 @@ class C16(Property):
     def nontrivial(self, case, obs):
         if case["k"] == "syn":
             return obs.get("result") is not None and bool(used_keys(case))
-        return True
+        return obs.get("verdict") is False and len(obs.get("errors", [])) > len(case["c15"].get("pre_errors", []))
 
     def tags(self, case, obs):
         t = ["kind=" + case["k"]]
@@ -804,10 +1021,31 @@ class C16(Property):
                 t.append("ungettext=%s" % ("yes" if n else "no"))
             if case.get("pre_errors"):
                 t.append("pre-errors")
+        else:
+            t.append("lang=%s" % case.get("lang"))
+            t.append("place=" + case["place"])
+            t.append("builtin=" + case["c15"]["v"]["cls"])
+            if case.get("label"):
+                t.append("message=" + case["label"])
+            t.append("builtin-outcome=%s" % (obs.get("raise") or obs.get("verdict")))
+            t.append("ungettext=%s" % ("yes" if case.get("lang") and case.get("with_n", True) else "no"))
         return sorted(set(t))
 
     def shrink_candidates(self, case):
-        if case["k"] != "syn":
+        if case["k"] == "builtin":
+            from harness.props import c15
+            for c in c15.PROP.shrink_candidates(case["c15"]):
+                d = copy.deepcopy(case)
+                d["c15"] = c
+                yield d
+            if case.get("lang") and case.get("with_n", True):
+                d = copy.deepcopy(case)
+                d["with_n"] = False
+                yield d
+            if case["place"] != "state-dict":
+                d = copy.deepcopy(case)
+                d["place"] = "state-dict"
+                yield d
             return
         for key in ("kwargs", "vattrs", "pre_errors"):
             for i in range(len(case.get(key, []))):
